@@ -4,6 +4,7 @@ spec-side case descriptor."""
 import json
 import os
 import re
+import threading
 
 import core
 
@@ -242,9 +243,18 @@ print("@@" + json.dumps({"done": len(work)}))
 '''
 
 
+def _write_once(path, text):
+    if os.path.exists(path):
+        return
+    tmp = "%s.%d.%d" % (path, os.getpid(), threading.get_ident())
+    with open(tmp, "w") as f:
+        f.write(text)
+    os.replace(tmp, path)
+
+
 def write_runtime(d):
-    with open(os.path.join(d, "c01rt.py"), "w") as f:
-        f.write(RUNTIME)
+    _write_once(os.path.join(d, "c01rt.py"), RUNTIME)
+    _write_once(os.path.join(d, "c01_driver.py"), DRIVER)
 
 
 def run_work(moddir, modname, work, leg, tag, timeout=600):
@@ -252,9 +262,6 @@ def run_work(moddir, modname, work, leg, tag, timeout=600):
     for the first unanswered program, the rest is re-run in a new child."""
     write_runtime(moddir)
     drv = os.path.join(moddir, "c01_driver.py")
-    if not os.path.exists(drv):
-        with open(drv, "w") as f:
-            f.write(DRIVER)
     out = {}
     todo = list(work)
     rounds = 0
@@ -326,3 +333,23 @@ def node_tags(prog):
 
 def size(prog):
     return sum(1 for _ in walk(prog))
+
+
+def _is_lit(n):
+    return n["t"] in ("int", "str", "none", "true") or (n["t"] in ("tuple", "list") and all(_is_lit(c) for c in n["a"]))
+
+
+def static_features(prog):
+    """program-level facts read off the spec-published tree (used for compile-time rejections, which have no call)"""
+    f = {"literal_unpack_length_mismatch": False, "literal_tuple_const_index_out_of_range": False}
+    for n in walk(prog):
+        if n["t"] == "assign" and n["a"][0]["t"] == "tup" and n["a"][1]["t"] in ("tuple", "list"):
+            tg, nv = n["a"][0]["a"], len(n["a"][1]["a"])
+            star = any(c["t"] == "star" for c in tg)
+            if (star and nv < len(tg) - 1) or (not star and nv != len(tg)):
+                f["literal_unpack_length_mismatch"] = True
+        if n["t"] == "sub" and n["a"][0]["t"] == "tuple" and n["a"][1]["t"] == "int" and _is_lit(n["a"][0]):
+            k, ln = n["a"][1]["i"], len(n["a"][0]["a"])
+            if k >= ln or k < -ln:
+                f["literal_tuple_const_index_out_of_range"] = True
+    return f
